@@ -266,6 +266,10 @@ func c05(ctx *core.Ctx) {
 					if o := rt.ObsOf(req.Request); o != nil {
 						o.Invokes = append(o.Invokes, rt.Invoke{RID: li})
 					}
+					if req.Request.Header.Get("X-Preset") == "1" {
+						// somebody (a filter, the handler) put a default Content-Type on the response before the entity is written
+						resp.Header().Set("Content-Type", "text/html; charset=utf-8")
+					}
 					if req.Request.Header.Get("X-Created") == "1" {
 						resp.WriteHeaderAndEntity(201, negEntity{A: "x", N: 7})
 					} else {
@@ -297,6 +301,9 @@ func c05(ctx *core.Ctx) {
 						req := rt.Req{Method: "GET", Path: fmt.Sprintf("/n/p%d", li), Hdr: map[string]string{}}
 						if created {
 							req.Hdr["X-Created"] = "1"
+						}
+						if h%5 == 2 {
+							req.Hdr["X-Preset"] = "1"
 						}
 						obs := &rt.Obs{}
 						rec := rt.NewRec()
